@@ -58,9 +58,11 @@ def safe_points(lang, code):
 
 
 def comment_for(lang, rnd, trailing=False):
+    """comment texts; comment-ONLY lines may even start with the suppression marker: such a
+    comment sits on no function's name line, so it must not change anything either"""
     if lang == "Python":
-        return rnd.choice(["# note", "# def x():", "#(", "#  later: nocl", "# {"])
-    c = rnd.choice(["// note", "/* block */", "// f() {", "/* { */", "// }", "/* int g() { */", "// x nocl"])
+        return rnd.choice(["# note", "# def x():", "#(", "#  later: nocl", "# {"] + ([] if trailing else ["# nocl", "#NOCL"]))
+    c = rnd.choice(["// note", "/* block */", "// f() {", "/* { */", "// }", "/* int g() { */", "// x nocl"] + ([] if trailing else ["// nocl", "/* nocl */", "//NoCl"]))
     return c
 
 
@@ -72,7 +74,7 @@ def make_variant(lang, code, rnd, boundaries, trail):
     for _ in range(n):
         r = rnd.random()
         if r < 0.3 and boundaries:
-            edits.append(("blank", rnd.choice(boundaries), rnd.choice(["", "   ", "\t"])))
+            edits.append(("blank", rnd.choice(boundaries), rnd.choice(["", "   ", "\t", "\x0c", " \x0b ", "\x1c", "\x85", "\u2028", "\xa0\u2003"])))
         elif r < 0.6 and boundaries:
             edits.append(("comment", rnd.choice(boundaries), " " * rnd.choice([0, 2, 4, 8]) + comment_for(lang, rnd)))
         elif r < 0.7 and boundaries and lang != "Python":
@@ -80,7 +82,7 @@ def make_variant(lang, code, rnd, boundaries, trail):
         elif r < 0.9 and trail:
             edits.append(("trail", rnd.choice(trail), " " * rnd.randint(1, 3) + comment_for(lang, rnd, True)))
         elif trail:
-            edits.append(("trail", rnd.choice(trail), " " * rnd.randint(1, 3)))
+            edits.append(("trail", rnd.choice(trail), rnd.choice([" ", "  ", "\t", " \x0c", "\xa0"]) * rnd.randint(1, 3)))
     return apply_edits(code, edits), edits
 
 
